@@ -106,7 +106,7 @@ theorem renderNum_wireText {fmt : Str} {v : Value} {t : Option Str} (h : renderN
   | none => simp only [Rendered.ok.injEq] at h; subst h; rfl
   | num x i =>
     simp only at h
-    cases hq : Num.numToStr Num.exactIEEE fmt x with
+    cases hq : Num.numToStr Num.exactIEEE fmt (preRound fmt i x) with
     | ok t' =>
       rw [hq] at h
       simp only [Rendered.ok.injEq] at h
